@@ -37,7 +37,9 @@ MC_INV = {
     "C05": ["CompileCorrect", "RenderFaithful", "SharedFetcher", "StepwiseEqualsFold"],
     "C13": ["NoneIff", "ZeroWhenConfigured", "SampleAlways"],
 }
-ACTIONS = ["PickStep", "PushOperStep", "PushMetricStep", "PushConstantStep", "FinalizeStep", "RoundStep"]
+ACTIONS = ["PickStep", "PushOperStep", "PushMetricStep", "PushConstantStep", "PushClipperStep", "FinalizeStep", "RoundStep"]
+# bounds offered to push_clipper (front end "push"): [lo, hi], NONE = bound absent
+CLIPS = [[0, NONE], [NONE, 1], [-1, 2]]
 
 
 def env_product(nm: int, values: list[int], limit: int | None = None, seed: int = SEED) -> list[list[int]]:
@@ -56,8 +58,8 @@ G3 = [-2, 0, 1]
 
 
 def _st(mode="exh", nm=2, depth=1, fronts=ALL_FRONTS, kvals=(2,), zmode="none", values=G4, env_limit=None,
-        limit=None, sim_num=0, sim_depth=3, binset=ALL_BIN, unset=ALL_UN, cov=False):
-    return dict(mode=mode, nm=nm, depth=depth, fronts=set(fronts), kvals=set(kvals), zmode=zmode, values=list(values),
+        limit=None, sim_num=0, sim_depth=3, binset=ALL_BIN, unset=ALL_UN, cov=False, clips=CLIPS):
+    return dict(clips=[list(c) for c in clips], mode=mode, nm=nm, depth=depth, fronts=set(fronts), kvals=set(kvals), zmode=zmode, values=list(values),
                 env_limit=env_limit, limit=limit, sim_num=sim_num, sim_depth=sim_depth, binset=set(binset),
                 unset=set(unset), cov=cov)
 
@@ -99,7 +101,7 @@ def _consts(st: dict, envs: list[list[int]], mode: str) -> dict:
     if mode == "sim":  # seeds only; TLC decodes a program from each (FormulaCompile.tla, GenRoot)
         rnd = random.Random(SEED + 23)
         seeds = set(rnd.sample(range(1, 65537), min(st["sim_num"], 60000)))
-    return dict(NM=st["nm"], KVals=st["kvals"], Depth=st["depth"], Fronts=st["fronts"], BinSet=st["binset"],
+    return dict(NM=st["nm"], KVals=st["kvals"], Clips=st["clips"], Depth=st["depth"], Fronts=st["fronts"], BinSet=st["binset"],
                 UnSet=st["unset"], EnvSeq=envs, ZMode=st["zmode"], SimDepth=st["sim_depth"], Seeds=seeds, Mode=mode)
 
 
@@ -159,6 +161,9 @@ class _Rig:
                         builder.push_component_metric(CID[t["n"]], nones_are_zeros=bool(z["leaf"][t["n"] - 1]))
                     elif t["t"] == "c":
                         builder.push_constant(float(t["n"]))
+                    elif t["t"] == "clip":
+                        lo, hi = _CFG["clips"][t["n"] - 1]
+                        builder.push_clipper(None if lo == NONE else float(lo), None if hi == NONE else float(hi))
                     else:
                         builder.push_oper(t["s"])
                 self.engine = builder.build()
@@ -227,7 +232,7 @@ class _Rig:
 
     def _real_program(self) -> tuple[list, int]:
         try:
-            from frequenz.sdk.timeseries.formula_engine._formula_steps import ConstantValue, MetricFetcher
+            from frequenz.sdk.timeseries.formula_engine._formula_steps import Clipper, ConstantValue, MetricFetcher
 
             inv = {f"#{c}": i for i, c in CID.items()}
             inv.update({f"m{i}": i for i in CID})
@@ -238,6 +243,9 @@ class _Rig:
                     out.append(dict(t="m", s="m", n=inv[repr(s)]))
                 elif isinstance(s, ConstantValue):
                     out.append(dict(t="c", s="c", n=int(s.value) if float(s.value).is_integer() else 12345))
+                elif isinstance(s, Clipper):
+                    key = [NONE if v is None else int(v) for v in (s.min_value, s.max_value)]
+                    out.append(dict(t="clip", s="clip", n=_CFG["clips"].index(key) + 1 if key in _CFG["clips"] else 0))
                 else:
                     out.append(dict(t="op", s=repr(s), n=0))
             return out, len(b._metric_fetchers)  # pylint: disable=protected-access
@@ -338,7 +346,7 @@ def _brief(rec: dict | None, step: int):
         return None
     out = {k: rec[k] for k in ("id", "front", "z", "tree", "formula", "rsteps", "nfetch", "stray")}
     out["toks_list"] = rec["toks"]
-    out["toks"] = " ".join((f"m{t['n']}" if t["t"] == "m" else str(t["n"]) if t["t"] == "c" else t["s"]) for t in rec["toks"])
+    out["toks"] = " ".join((f"m{t['n']}" if t["t"] == "m" else str(t["n"]) if t["t"] == "c" else f"clip#{t['n']}" if t["t"] == "clip" else t["s"]) for t in rec["toks"])
     k = step - 2
     if 0 <= k < len(rec["rounds"]):
         out["round"] = dict(rec["rounds"][k], timestamp=k)
@@ -382,7 +390,7 @@ def _stage(rep: Report, prop: str, name: str, st: dict, work: Path, totals: dict
             rep.exhaustive = False
     if sim:
         rep.exhaustive = False
-    _CFG = dict(envs=envs, nm=st["nm"])
+    _CFG = dict(envs=envs, nm=st["nm"], clips=st["clips"])
     # small stages: fewer shards (every shard costs a JVM start in VAL, ~8 CPU seconds)
     shards = replay_parallel(_worker, cases, d, nproc=max(1, min(16, len(cases) // 150)))
     fails, done, vst = validate_shards("FormulaCompileTrace", shards, d, constants=_consts(st, [], "trace"), heap="4g", extra_env=JVM_ENV)
@@ -438,12 +446,13 @@ def _stage(rep: Report, prop: str, name: str, st: dict, work: Path, totals: dict
 
 
 NEED = {
-    "C05": ["c05", "sample"],
+    "C05": ["c05", "sample", "clipact"],
     # causeminmax / causediv0: inputs on which a min/max step meets a NaN second operand / a division
     # meets a zero divisor (where the two former defects would show), counted on the CURRENT model
-    "C13": ["noneiff", "wantnone", "zero", "twin", "sample", "causeminmax", "causediv0"],
+    # clipnan: a missing value reached a clipper
+    "C13": ["noneiff", "wantnone", "zero", "twin", "sample", "causeminmax", "causediv0", "clipnan"],
 }
-NEED_COV = {"C13": [f"{op}:{pos}" for op in sorted(ALL_BIN) for pos in "LR"] + [f"{op}:A" for op in sorted(ALL_UN)]}
+NEED_COV = {"C13": [f"{op}:{pos}" for op in sorted(ALL_BIN) for pos in "LR"] + [f"{op}:A" for op in sorted(ALL_UN)] + ["clip:A"]}
 
 
 def run(prop: str, tier: str) -> int:
@@ -500,7 +509,8 @@ def replay(prop: str, data: dict) -> int:
     d = scratch(f"{prop}_replay")
     shard = d / "impl_0.ndjson"
     dump_ndjson(shard, [rec])
-    tc = dict(NM=consts["NM"], KVals=set(consts["KVals"]), Depth=consts["Depth"], Fronts=set(consts["Fronts"]),
+    _CFG = dict(clips=consts["Clips"])
+    tc = dict(NM=consts["NM"], KVals=set(consts["KVals"]), Clips=consts["Clips"], Depth=consts["Depth"], Fronts=set(consts["Fronts"]),
               BinSet=set(consts["BinSet"]), UnSet=set(consts["UnSet"]), EnvSeq=[], ZMode=consts["ZMode"],
               SimDepth=consts["SimDepth"], Seeds=set(), Mode="trace")
     fails, _, _ = validate_shards("FormulaCompileTrace", [shard], d, constants=tc, extra_env=JVM_ENV)
